@@ -117,6 +117,27 @@ func (c *caseT) unstake(v voterT, amt int64) {
 		"out": fx.M{"ok": errS == "", "err": errS}})
 }
 
+// reimport: export the feeds genesis, validate it and initialise a branch of the store from it: the signal totals it
+// recomputes from the votes must be the totals the chain had (observed through the same dump)
+func (c *caseT) reimport() {
+	cctx, _ := c.ctx.CacheContext()
+	saved := c.ctx
+	e := fx.Try(func() error {
+		g := c.app.FeedsKeeper.ExportGenesis(cctx)
+		if err := g.Validate(); err != nil {
+			return err
+		}
+		wipe(cctx.KVStore(c.app.GetKey(feedstypes.StoreKey)))
+		c.app.FeedsKeeper.InitGenesis(cctx, *g)
+		return nil
+	})
+	c.ctx = cctx
+	out := c.dump(c.voters[0])
+	c.ctx = saved
+	out["err"] = e
+	c.tr.Op(fx.M{"op": "reimport", "out": out})
+}
+
 func (c *caseT) updateFeeds() {
 	feeds := c.app.FeedsKeeper.CalculateNewCurrentFeeds(c.ctx)
 	l := [][]any{}
@@ -229,12 +250,25 @@ func (c *caseT) genVote(v voterT) []feedstypes.Signal {
 	return sigs
 }
 
+// wipe empties a module store (on a branch): the import then starts from nothing but the genesis, as on a new chain
+func wipe(st storetypes.KVStore) {
+	var keys [][]byte
+	it := st.Iterator(nil, nil)
+	for ; it.Valid(); it.Next() {
+		keys = append(keys, append([]byte{}, it.Key()...))
+	}
+	it.Close()
+	for _, k := range keys {
+		st.Delete(k)
+	}
+}
+
 func runCase(app *fx.App, tr *fx.Trace, r *fx.Rng) {
 	ctx, _ := app.Ctx.CacheContext()
 	c := &caseT{app: app, ctx: ctx, tr: tr, r: r,
 		fms: feedskeeper.NewMsgServerImpl(app.FeedsKeeper), rms: restakekeeper.NewMsgServerImpl(app.RestakeKeeper)}
 	c.step = r.PickI64(1, 2, 10, 1000, 1_000_000_000)
-	c.maxN = uint64(r.PickInt(0, 1, 2, 3, 5))
+	c.maxN = []uint64{0, 1, 2, 3, 5, 300, 1<<63 - 1, 1 << 63, math.MaxUint64}[r.PickInt(0, 1, 2, 3, 4, 1, 2, 3, 4, 5, 6, 7, 8)]
 	minI := r.PickI64(1, 60, 100, 3600)
 	maxI := r.PickI64(1, 60, 3600, 3601, 100000)
 	p := app.FeedsKeeper.GetParams(ctx)
@@ -272,6 +306,9 @@ func runCase(app *fx.App, tr *fx.Trace, r *fx.Rng) {
 			c.vote(v, c.genVote(v))
 		case k < 8:
 			c.updateFeeds()
+			if r.Chance(1, 3) {
+				c.reimport()
+			}
 		default:
 			staked := c.app.RestakeKeeper.GetStakedPower(c.ctx, v.acc.Address)
 			if staked.IsPositive() && staked.IsInt64() {
